@@ -54,12 +54,15 @@ class Chunking(FragmentTask):
 def tasks(tier):
     from props.mandoline_parents import parent_tasks
     from props.mandoline_boxes import box_tasks
-    return kernel_tasks("C16", ["expand"]) + [Chunking()] + parent_tasks("C16") + box_tasks("C16", ["slice"])[:1 if tier == "quick" else 3]
+    from props.mandoline_parents import kernel_tasks2
+    return kernel_tasks("C16", ["expand"]) + [Chunking()] + parent_tasks("C16") + box_tasks("C16", ["slice"])[:1 if tier == "quick" else 3] + \
+        kernel_tasks2("C16", ("bylevel",))
 
 
 def canaries(tier):
     from props.mandoline_parents import parent_canaries
-    return kernel_canaries(["expand"]) + parent_canaries()[:1] + [
+    from props.mandoline_parents import kernel_canaries2
+    return kernel_canaries(["expand"]) + parent_canaries()[:1] + kernel_canaries2(("bylevel",)) + [
         ("chunking: number of chunks rounded down",
          [("amr_kitchen/mandoline/mandoline.py", "nchunks = -(-len(cell_indexes) // chunk_size)",
            "nchunks = len(cell_indexes) // chunk_size")], ["write_cell_data_at_level.chunking"])]
